@@ -7,7 +7,7 @@ The top-level postcondition is the statement's: the net flux f - r ranges over e
 """
 import z3
 from .common import *  # noqa
-from pyvc.values import xr_le, xr_lt, xr_eq, xr_const, VReal
+from pyvc.values import xr_le, xr_lt, xr_eq, xr_const, VReal, id_lit, VSlice, VFunc, Unsupported, unwrap
 
 M = "cobra/core/reaction.py"
 REG.fields.update({"_lower_bound": "real", "_upper_bound": "real", "_model": "ref:Model", "var_lb": "real", "var_ub": "real"})
@@ -98,15 +98,151 @@ def _var_result(which):
     return r
 
 
+# ---------------------------------------------------------------- the reaction's solver variables: PROVED getters over assumed leaves
+# (until round 5 the three getters below were assumed contracts; now their real bodies are verified, hook table GETTER_HOOKS)
+#   leaves (external code / C01 invariant), everything that stays ASSUMED about them:
+#   (L1) optlang Container lookup: `container[name]` returns lp_var_registered(container, name), KeyError when that is NULL
+#        (assumed contract "VarContainer.__getitem__"); `solver.variables` is the container lp_variables_of(solver);
+#   (L2) solver in step (the C01 invariant, established by the proved Model._populate_solver (2) and kept by the proved rename):
+#        for a reaction r of a model, the object registered in its model's solver under id(r) is the one the contracts call
+#        fwd(r), the object registered under reverse_id_of(id(r)) is rev(r); both exist and are different objects (different names:
+#        the md5-based reverse id is assumed different from every reaction id) - `_in_step_axioms`, the `axioms=` of the two getters;
+#   (L3) hashlib.md5(<id>.encode("utf-8")).hexdigest()[0:5] is a function md5_utf8_hexdigest_0_5 of the id, `sep.join((a, b, c))` a
+#        function str_join3 of its four strings (uninterpreted; GETTER_HOOKS); reverse_id_of(k) is DEFINED as
+#        str_join3("_", k, "reverse", md5_utf8_hexdigest_0_5(k)) - the documented shape (`_revid_axioms`).
+#   proved from the bodies: the detached / in-model decision on `self.model`, that the look-up goes to the variables container of the
+#   solver of the reaction's OWN model (through the real Model.variables / Model.solver getters, inlined) under the key `self.id`
+#   resp. `self.reverse_id` (the proved getter), that nothing is written, and that reverse_id has the documented shape.
+#   Mutation trials (tools/mutate_and_run.sh cobra/core/reaction.py ... contracts.c01_lp --hooks GETTER_HOOKS <key>), each NOT verified:
+#     forward_variable: `self.model.variables[self.id]` -> `[self.reverse_id]`: in_model exit=return#1/post.2 sat;
+#     forward_variable: `is not None` -> `is None` (first occurrence is flux_expression; second mutated): detached post sat / in_model;
+#     reverse_variable: `[self.reverse_id]` -> `[self.id]`: in_model post.2 sat;
+#     reverse_variable: `self.model.variables` -> `self.model.constraints`: unsupported (no such look-up is known: undecided);
+#     reverse_id: "reverse" -> "reversed": post sat;  `[0:5]` -> `[0:6]`: unsupported slice (undecided);
+#     reverse_id: (self.id, "reverse", h) -> ("reverse", self.id, h): post sat.
+REG.fields.update({"_solver": "ref:LPSolver"})
+REG.classes.setdefault("LPSolver", [])
+REG.classes.setdefault("VarContainer", [])
+REG.inline.add("Model.variables@getter")
+REG.inline.add("Model.solver@getter")
+GETTER_KEYS = ["Reaction.reverse_id@getter", "Reaction.forward_variable@getter", "Reaction.reverse_variable@getter",
+               "VarContainer.__getitem__"]
+var_at = z3.Function("lp_var_registered", Ref, Id, Ref)       # (container, name) -> registered object, NULL if none
+lp_vars = z3.Function("lp_variables_of", Ref, Ref)            # solver -> its `variables` container
+REVID = z3.Function("reverse_id_of", Id, Id)                  # the reverse id belonging to an id (same symbol as c02_rename.REVID)
+str_join3 = z3.Function("str_join3", Id, Id, Id, Id, Id)      # sep.join((a, b, c))
+md5_hex5 = z3.Function("md5_utf8_hexdigest_0_5", Id, Id)      # hashlib.md5(s.encode("utf-8")).hexdigest()[0:5]
+
+_gi = Case("present", requires=lambda E: var_at(E["self"].t, unwrap(E["name"], "id")) != NULL)
+_gi.result = lambda eng, st, E: (st, VRef(var_at(E["self"].t, unwrap(E["name"], "id")), "Variable"))
+REG.add(Contract("optlang/container.py", "Container.__getitem__", "C01", [("self", TRef("VarContainer")), ("name", TStr())], [
+    _gi, Case("absent", requires=lambda E: var_at(E["self"].t, unwrap(E["name"], "id")) == NULL, raises="KeyError"),
+], assumed=True, key="VarContainer.__getitem__",
+    note="optlang Container look-up by name, model.variables[name]: the object registered under that name (ghost function "
+         "lp_var_registered of container and name), KeyError when there is none; reads only"))
+
+
+def revid_def(k):
+    return REVID(k) == str_join3(id_lit("_"), k, id_lit("reverse"), md5_hex5(k))
+
+
+def _revid_axioms(E):
+    if not _verifying_getter(E):
+        return []
+    return [revid_def(E.eng.heap_arr(E.s0, "_id")[E["self"].t])]
+
+
+def _verifying_getter(E):
+    """the axioms below are needed (and applied) only while one of the getter BODIES is verified; at call sites the post-conditions
+    say everything the callers use, and the callers' proofs see exactly the facts they saw when the getters were assumed"""
+    cur = getattr(E.eng, "cur_contract", None)
+    return cur is not None and cur.key in GETTER_KEYS
+
+
+def _in_step_axioms(E):
+    if not _verifying_getter(E):
+        return []
+    r = E["self"].t
+    m = model_of(E, E.s0, r)
+    c = lp_vars(E.eng.heap_arr(E.s0, "_solver")[m])
+    i = E.eng.heap_arr(E.s0, "_id")[r]
+    return [z3.Implies(m != NULL, z3.And(var_at(c, i) == fwd(r), var_at(c, REVID(i)) == rev(r), vars_distinct(r)))]
+
+
+REG.add(Contract(M, "Reaction.reverse_id@getter", "C04", [RXN],
+                 [Case("any", ensures=lambda E: E.res.t == REVID(E.eng.heap_arr(E.s0, "_id")[E["self"].t]))],
+                 axioms=_revid_axioms, key="Reaction.reverse_id@getter", result="id", props=["C04", "C01"],
+                 note="PROVED (was assumed): the result is reverse_id_of(current id) = '_'.join((id, 'reverse', md5 prefix of the id))"))
+
+
+def _with_res(E, base, t):
+    """at a call site (the result IS the term t, built by the case's result builder) exactly the clause the assumed contract had"""
+    if isinstance(E.res, VRef) and E.res.t.eq(t):
+        return base
+    return z3.And(base, _res_is(E, t))
+
+
+def _res_is(E, t):
+    if not isinstance(E.res, VRef):
+        return z3.BoolVal(False)
+    return TRUE() if E.res.t.eq(t) else E.res.t == t
+
+
 for _name, _fn in (("forward_variable", fwd), ("reverse_variable", rev)):
     c1 = Case("in_model", requires=lambda E: model_of(E, E.s0, E["self"].t) != NULL,
-              ensures=lambda E: vars_distinct(E["self"].t))
+              ensures=(lambda fn: lambda E: _with_res(E, vars_distinct(E["self"].t), fn(E["self"].t)))(_fn))
     c1.result = _var_result(_fn)
-    c2 = Case("detached", requires=lambda E: model_of(E, E.s0, E["self"].t) == NULL)
+    c2 = Case("detached", requires=lambda E: model_of(E, E.s0, E["self"].t) == NULL,
+              ensures=lambda E: z3.BoolVal(isinstance(E.res, VNone)))
     c2.result = lambda eng, st, E: (st, NONE)
-    REG.add(Contract(M, f"Reaction.{_name}@getter", "C01", [RXN], [c1, c2], assumed=True, key=f"Reaction.{_name}@getter",
-                     note="returns model.variables[id] resp. [reverse_id]; the two optlang variables of a reaction are distinct objects "
-                          "(md5-based reverse_id assumed injective and different from all reaction ids)"))
+    REG.add(Contract(M, f"Reaction.{_name}@getter", "C01", [RXN], [c1, c2], axioms=_in_step_axioms, key=f"Reaction.{_name}@getter",
+                     note="PROVED (was assumed): None without a model, else model.variables[id] resp. [reverse_id], which is fwd / rev of "
+                          "the reaction by the in-step assumption (L2 in contracts/c01_lp.py): the two optlang variables of a reaction "
+                          "are registered under id / reverse id and are distinct objects (md5-based reverse_id assumed different from "
+                          "all reaction ids)"))
+
+
+# hooks for VERIFYING the three getter bodies (call sites need none)
+def _g_getattr(eng, st, v, name):
+    if isinstance(v, VRef) and v.cls == "LPSolver" and name == "variables":
+        return [("ok", st, VRef(lp_vars(v.t), "VarContainer"))]
+    if isinstance(v, VConc) and v.py == ("module", "hashlib") and name == "md5":
+        return [("ok", st, VFunc("abstract", "hashlib.md5"))]
+    if isinstance(v, VTuple) and len(v.items) == 2 and isinstance(v.items[0], VConc) and v.items[0].py == "<md5 object>" \
+            and name == "hexdigest":
+        return [("ok", st, VFunc("abstract", "md5.hexdigest", v.items[1]))]
+    return None
+
+
+def _g_call_abstract(eng, st, f, pos, kw):
+    if f.a == "hashlib.md5" and len(pos) == 1 and not kw and isinstance(pos[0], VTuple) and len(pos[0].items) == 2 \
+            and isinstance(pos[0].items[0], VConc) and pos[0].items[0].py == "<utf-8 bytes>":
+        return [("ok", st, VTuple((VConc("<md5 object>"), pos[0].items[1])))]
+    if f.a == "md5.hexdigest" and not pos and not kw:
+        return [("ok", st, VTuple((VConc("<md5 hexdigest>"), f.b)))]
+    raise Unsupported(f"abstract call {f.a}")
+
+
+def _g_call_method(eng, st, recv, name, pos, kw):
+    if isinstance(recv, VStr) and name == "encode" and len(pos) == 1 and isinstance(pos[0], VConc) and pos[0].py == "utf-8" and not kw:
+        return [("ok", st, VTuple((VConc("<utf-8 bytes>"), recv)))]
+    if isinstance(recv, VConc) and isinstance(recv.py, str) and name == "join" and len(pos) == 1 and isinstance(pos[0], VTuple) \
+            and len(pos[0].items) == 3 and all(isinstance(x, VStr) or (isinstance(x, VConc) and isinstance(x.py, str)) for x in pos[0].items):
+        a, b, c = [unwrap(x, "id") for x in pos[0].items]
+        return [("ok", st, VStr(str_join3(id_lit(recv.py), a, b, c)))]
+    return None
+
+
+def _g_getitem(eng, st, obj, idx):
+    if isinstance(obj, VTuple) and len(obj.items) == 2 and isinstance(obj.items[0], VConc) and obj.items[0].py == "<md5 hexdigest>":
+        if isinstance(idx, VSlice) and isinstance(idx.lo, VInt) and isinstance(idx.hi, VInt) and isinstance(idx.step, VNone) \
+                and z3.is_int_value(idx.lo.t) and z3.is_int_value(idx.hi.t) and idx.lo.t.as_long() == 0 and idx.hi.t.as_long() == 5:
+            return [("ok", st, VStr(md5_hex5(unwrap(obj.items[1], "id"))))]
+        raise Unsupported("a slice of the md5 hexdigest other than [0:5]")
+    return None
+
+
+GETTER_HOOKS = {"getattr": _g_getattr, "call_abstract": _g_call_abstract, "call_method": _g_call_method, "getitem": _g_getitem}
 
 
 # ---------------------------------------------------------------- Reaction._check_bounds (staticmethod)
